@@ -125,3 +125,9 @@ VARIANTS += [
     dict(id="c20-rdb-template-shallow-copy", prop="C20", file="optuna/storages/_rdb/storage.py", expect="R20.1",
          old="                frozen = copy.deepcopy(template_trial)\n", new="                frozen = copy.copy(template_trial)\n"),
 ]
+
+VARIANTS += [
+    dict(id="c20-metric-names-uncopied", prop="C20", file=ST, expect="R20.2",
+         old="        return copy.deepcopy(\n            self._storage.get_study_system_attrs(self._study_id).get(_SYSTEM_ATTR_METRIC_NAMES)\n        )\n",
+         new="        return self._storage.get_study_system_attrs(self._study_id).get(_SYSTEM_ATTR_METRIC_NAMES)\n"),
+]
